@@ -112,6 +112,11 @@ def rule_letters(fx, rep):
     # the letter table may sit in the printer itself or in a string-valued helper it calls
     wbodies = [wr] + [fx.body(callee_name(t)) for bb, t in wr.calls()
                       if callee_name(t) and fx.body(callee_name(t)) is not None and norm(callee_name(t)).startswith("engine::uci::") and "str" in fx.body(callee_name(t)).local_ty(0)]
+    # ... or in a helper handed to a combinator as a function value (`self.promotion.map_or("", promotion_letter)`)
+    for ref in wr.fn_refs():
+        hb = fx.body(ref.get("res") or ref.get("fn") or "") if (ref.get("res") or ref.get("fn")) else None
+        if hb is not None and hb not in wbodies and norm(hb.name).startswith("engine::uci::") and "str" in (hb.local_ty(0) or ""):
+            wbodies.append(hb)
     for wb in wbodies:
         for bb, j, s in wb.stmts():
             rv = s.get("rv")
@@ -119,7 +124,8 @@ def rule_letters(fx, rep):
                 lit = const_str(rv["op"])
                 for (e, pol, w) in guard_conditions(wb, bb, expand_named=True):
                     d = deep_strip(e)
-                    if isinstance(d, tuple) and d[0] == "discr" and isinstance(pol, int) and find_kind_discr(d):
+                    if isinstance(d, tuple) and d[0] == "discr" and isinstance(pol, int) and (find_kind_discr(d) or
+                                                                                              (wb is not wr and deep_strip(d[1])[:2] == ("arg", 1) and "PromotionPieceKind" in (wb.local_ty(1) or ""))):
                         wt[kinds.get(pol)] = lit
     rep.sample({"rule": "C17-LETTERS", "reader_promotion": rt, "writer_promotion": wt})
     n += 1
@@ -147,6 +153,12 @@ def rule_letters(fx, rep):
         rb, wb = fx.one(rfn), fx.one(wfn)
         rtab = {c: pC06.enum_in(e, adt) for c, e in pC06.char_table(fx, rb).items()}
         variants = {v["discr"]: v["name"] for v in fx.adt(adt)["variants"]}
+        if not rtab:
+            # lookup-table form: `TABLE[CHARS.find(ch).unwrap()]` with a constant string and a constant array of the enum
+            rtab = lookup_reader(fx, rb, variants)
+            if rtab is None:
+                rep.notes.append(f"C17-LETTERS: the {what} reader `{rb.name}` is neither a `match` on the character nor a constant lookup table; not decided")
+                continue
         wtab = {}
         for conds, ret, bb in decision_paths(wb):
             if ret is None:
@@ -176,6 +188,31 @@ def rule_letters(fx, rep):
     if not good:
         bad("triple-order", "uci_move does not build UciMove{src, dst, promotion} from the first, second and third parsed component", um)
     rep.rule("C17-LETTERS", n, 5, ok, "move-text letter tables")
+
+
+def lookup_reader(fx, rb, variants):
+    """{char: variant name} for a reader of the form TABLE[CHARS.find(ch).unwrap()] (constant string, constant enum array)"""
+    for conds, ret, bb in decision_paths(rb):
+        if ret is None:
+            continue
+        for x in walk(ret):
+            if not (isinstance(x, tuple) and x and x[0] == "index"):
+                continue
+            base, idx = deep_strip(x[1]), deep_strip(x[2])
+            if not (isinstance(base, tuple) and base and base[0] == "constpath"):
+                continue
+            tab = [v for k, v in fx.consts.items() if norm(k) == base[1]]
+            fc = find_calls(idx, "str::find")
+            if not tab or "bytes" not in tab[0] or not fc:
+                continue
+            chars = deep_strip(fc[0][2][0])
+            if not (isinstance(chars, tuple) and chars[0] == "const" and isinstance(chars[1], str)):
+                continue
+            raw = bytes.fromhex(tab[0]["bytes"])
+            if len(raw) != len(chars[1]):
+                return None
+            return {c: variants.get(raw[i]) for i, c in enumerate(chars[1])}
+    return None
 
 
 def find_kind_discr(d):
